@@ -14,6 +14,8 @@ def run(ctx):
     ctx.assumptions += ["gc/amd64 struct layout and reflect's field description are modelled (Model/Layout), validated against the compiler on every generated shape (C03 harness)",
                         "memory is a byte map; a value of type A is size(A) bytes; GC, write barriers and memory outside the guard areas are outside the model",
                         "ForProduct1..9/ForSpectrum1..9 are modelled as one list function (deriveN) and exercised at all nine arities on every shape"]
+    S.apply_replay(ctx)
+    S.regenerate(ctx)
     ctx.prove()
     if ctx.thorough():
         ctx.leanchecker()
